@@ -77,7 +77,9 @@ Proof. exact agree_example. Qed.
      keys_okb     no two channel names collide through the key scheme (finding map-key-collision)
      length ops <= StreamSize   neither side trims (finding map-stream-approx-trim beyond that)
      run_ok       per operation, relative to the memory model's state when it is issued:
-       Publish    keyed or unkeyed; delta allowed; no idempotency key or version (testing only); Score >= 0;
+       Publish    keyed or unkeyed; delta allowed; no idempotency key (testing only); Score >= 0; a keyed Publish
+                  may carry a Version < 2^53 with any VersionEpoch (suppression "version"; an unversioned
+                  publish keeps the stored version; finding map-version-ge-2^53 beyond);
                   new-epoch string without ':'; a keyed Publish may carry any KeyMode (suppressions
                   key_exists / key_not_found) and an ExpectedPosition with offset < 2^53 and a NON-EMPTY
                   epoch (suppression position_mismatch with the current entry; finding
@@ -122,7 +124,13 @@ Definition w_core : list mop :=
    MReadStream "a" (Some (1%N, "N0")) 2 false "N12" "N12"; MReadStream "a" (Some (3%N, "N0")) (-1) true "N13" "N13";
    MReadStream "a" (Some (3%N, "zz")) (-1) false "N13" "N13"; MReadStream "a" None 1 true "N14" "N14";
    rd_stream "b" "N15"; pub "b" "k" "x" "N16"; MReadState "c" None 0 "" false "N17" "N17"; MRemove "b" "k" ro "N18" 1000;
-   rd_state "b" "N19"; MClear "a"; rd_stream "a" "N20"; pub "a" "k1" "again" "N21"; rd_state "a" "N22"].
+   rd_state "b" "N19";
+   MPublish "b" "v1" (mkMP "" 0 "w1" false 5 "" 0 "" false None) "N60" 1000; MPublish "b" "v1" (mkMP "" 0 "w2" false 5 "" 0 "" false None) "N61" 1000;
+   MPublish "b" "v1" (mkMP "" 0 "w3" false 0 "" 0 "" false None) "N62" 1000; MPublish "b" "v1" (mkMP "" 0 "w4" false 4 "ep" 0 "" false None) "N63" 1000;
+   MPublish "b" "v1" (mkMP "" 0 "w5" false 4 "" 0 "" false None) "N64" 1000; MPublish "b" "v1" (mkMP "" 0 "w6" false 9 "ep" 0 "" false None) "N65" 1000;
+   MPublish "b" "v1" (mkMP "" 0 "w7" false 3 "ep" 0 "" false None) "N66" 1000; MRemove "b" "v1" ro "N67" 1000;
+   MPublish "b" "v1" (mkMP "" 0 "w8" false 1 "" 0 "" false None) "N68" 1000;
+   MClear "a"; rd_stream "a" "N20"; pub "a" "k1" "again" "N21"; rd_state "a" "N22"].
 Example C23_core_domain_example :
   cfg_ok cfP = true /\ keys_okb (chans w_core) = true /\ run_ok cfP mm_init w_core = true /\
   (Z.of_nat (List.length w_core) <= mc_size cfP)%Z /\
@@ -133,6 +141,10 @@ Example C23_core_domain_example :
      MUpd 4 "N0" true "position_mismatch" None; MUpd 5 "N0" false "" None] /\
   firstn 2 (skipn 16 (mem_map_run cfP w_core)) =
     [MUpd 5 "N0" true "position_mismatch" (Some (5%N, "d3")); MUpd 5 "N0" true "position_mismatch" None] /\
+  map (fun r => match r with MUpd o _ s rs _ => (o, s, rs) | _ => (0%N, false, "?") end)
+      (firstn 9 (skipn 30 (mem_map_run cfP w_core))) =
+    [(3%N, false, ""); (3%N, true, "version"); (4%N, false, ""); (5%N, false, ""); (5%N, true, "version"); (6%N, false, "");
+     (6%N, true, "version"); (7%N, false, ""); (8%N, false, "")] /\
   firstn 3 (rev (mem_map_run cfP w_core)) =
     [MState [("k1", 1%N, "again", 0%Z)] 1 "N20"; MUpd 1 "N20" false "" None; MStream [] 0 "N20"] /\
   nth 20 (mem_map_run cfP w_core) MErr =
